@@ -356,9 +356,13 @@ def runSection (r : Report) (sec : Section) : Report := Id.run do
           r := r.addCover "gated"
           let snaps := (segs.drop 1).dropLast
           let sMid := remove H sPre (opNode op)
-          let expect := [observe H sPre probes, observe H sMid probes]
-          if kv? (segs.headD []) "sig" ≠ some "2" ∨ snaps.length ≠ 2 then
-            r := r.mismatch sec.idx l.idx "sig=2" (joinSp (segs.headD []))
+          -- two signals (state before, then the state between Remove and the insertion): the tree as it is;
+          -- one signal (state before only): AddWithReplicas as one critical section (fixes/C15-add-single-critical-section.patch)
+          let nsig := kv? (segs.headD []) "sig"
+          let expect := if nsig = some "1" then [observe H sPre probes] else [observe H sPre probes, observe H sMid probes]
+          if nsig = some "1" then r := r.addCover "gated-one-critical-section" else r := r.addCover "gated-two-critical-sections"
+          if (nsig ≠ some "2" ∧ nsig ≠ some "1") ∨ snaps.length ≠ expect.length then
+            r := r.mismatch sec.idx l.idx "sig=2 (or sig=1)" (joinSp (segs.headD []))
           for (e, sn) in expect.zip snaps do
             if e ≠ joinSp sn then r := r.mismatch sec.idx l.idx e (joinSp sn)
           if get H sMid (probes.headD default) != get H sPre (probes.headD default) ||
